@@ -70,6 +70,32 @@ Proof.
   intros E. inversion E; subst u3 a3. exists u1, a1. split; [reflexivity | exact Ea].
 Qed.
 
+(* ceil (d / k) *)
+Definition ceil_div (d k : nat) : nat := (d + k - 1) / k.
+
+Lemma ceil_div_ok (d k : nat) : 0 < k -> d <= ceil_div d k * k.
+Proof.
+  intros Hk. unfold ceil_div.
+  pose proof (Nat.div_mod (d + k - 1) k ltac:(lia)) as Hdm.
+  pose proof (Nat.mod_upper_bound (d + k - 1) k ltac:(lia)) as Hm.
+  rewrite (Nat.mul_comm ((d + k - 1) / k) k).
+  set (q := k * ((d + k - 1) / k)) in *. set (r := (d + k - 1) mod k) in *. lia.
+Qed.
+
+Lemma ceil_div_mono (d d' k : nat) : 0 < k -> d <= d' -> ceil_div d k <= ceil_div d' k.
+Proof. intros Hk Hle. unfold ceil_div. apply Nat.div_le_mono; lia. Qed.
+
+(* the least number of rounds: one fewer does not cover d *)
+Lemma ceil_div_least (d k : nat) : 0 < k -> 0 < d -> (ceil_div d k - 1) * k < d.
+Proof.
+  intros Hk Hd. unfold ceil_div.
+  pose proof (Nat.div_mod (d + k - 1) k ltac:(lia)) as Hdm.
+  pose proof (Nat.mod_upper_bound (d + k - 1) k ltac:(lia)) as Hm.
+  assert (Hq : 1 <= (d + k - 1) / k) by (apply Nat.div_le_lower_bound; lia).
+  rewrite Nat.mul_sub_distr_r, (Nat.mul_comm ((d + k - 1) / k) k).
+  set (q := k * ((d + k - 1) / k)) in *. set (r := (d + k - 1) mod k) in *. lia.
+Qed.
+
 Section Converge.
   Variable value_fn : N -> bool -> Z -> N.
   Variable addr_of : string -> string.
@@ -120,7 +146,7 @@ Section Converge.
       nth_error C j = Some p -> nth_error C (Datatypes.S j) = Some b ->
       replay (firstn j C) = Ok (u, a) ->
       VBLOCK (mkC (firstn (Datatypes.S j) C) u a) b (b_ts p) now = Ok tt.
-  Proof.
+  Proof using value_fn addr_of sig_ok Se.
     split.
     - intros Hpv j p b u a Hp Hb Hr.
       destruct (nth_error_split C j Hp) as (X & T0 & E & Hlen).
@@ -274,4 +300,867 @@ Section Converge.
         split; [exact Hch'|]. split; [exact Hr' | exact Ea'].
   Qed.
 
+  (* the host's registers allow applying the next block of a chain that replays *)
+  Lemma apply_next_ok (Y : list block) (p : block) (u : ureg) (a a' : areg) :
+    replay Y = Ok (u, a) -> registered a = registered a' ->
+    (exists u2 a2, replay (Y ++ [p]) = Ok (u2, a2)) ->
+    exists u1 a1 a2, replay (Y ++ [p]) = Ok (u1, a1) /\
+                     apply_block u a' p = Ok (u1, a2) /\ registered a1 = registered a2.
+  Proof.
+    intros Hr Ea (u1 & a1 & Hp1). pose proof Hp1 as Hp1'. unfold replay in Hp1'.
+    apply replay_from_snoc_inv in Hp1'. destruct Hp1' as (u0 & a0 & Hx0 & Hap0).
+    fold (replay Y) in Hx0. rewrite Hr in Hx0. inversion Hx0; subst u0 a0.
+    destruct (apply_block_reg_irrel _ _ _ _ _ _ Ea Hap0) as (a2 & Hap2 & E2).
+    exists u1, a1, a2. split; [exact Hp1|]. split; [exact Hap2 | exact E2].
+  Qed.
+
+  (* blockchain.go:358-363: the closing AddBlock(next, nil, nil) applies the last answered block *)
+  Lemma verify_finish_ok (sh : cstate) (Y : list block) (lb : block) (a : areg) (n : list block) :
+    chain sh = Y ++ [lb] -> replay Y = Ok (ur sh, a) -> registered a = registered (ar sh) ->
+    (exists u2 a2, replay (Y ++ [lb]) = Ok (u2, a2)) ->
+    match last_block (chain sh) with
+    | None => Ok n
+    | Some l => match add_block H sh (b_ts l + s_interval Se)%Z None [] with
+                | Err e => Err e
+                | Ok _ => @Ok err _ n
+                end
+    end = Ok n.
+  Proof.
+    intros Hch Hr Ea Hnext. rewrite Hch, last_block_snoc'.
+    destruct (apply_next_ok Y lb (ur sh) a (ar sh) Hr Ea Hnext) as (u1 & a1 & a2 & _ & Hap & _).
+    unfold add_block, add_block_raw. rewrite Hch, last_block_snoc', Hap. reflexivity.
+  Qed.
+
+  Lemma verify_inc_unfold (st : cstate) (lh0 : block) (lhr : list block) (nb0 : block)
+        (nbr old : list block) (now : Z) :
+    old <> [] ->
+    VERIFY st (lh0 :: lhr) (nb0 :: nbr) old now =
+    if negb (hash_eqb (b_prev lh0) (b_prev nb0)) then Err EFork
+    else match VLOOP (lh0 :: lhr) now 0 (mkC old (ur st) (ar st)) (last_block old) (nb0 :: nbr) with
+         | Err e => Err e
+         | Ok sh =>
+           match last_block (chain sh) with
+           | None => Ok (nb0 :: nbr)
+           | Some l => match add_block H sh (b_ts l + s_interval Se)%Z None [] with
+                       | Err e => Err e
+                       | Ok _ => Ok (nb0 :: nbr)
+                       end
+           end
+         end.
+  Proof. intros Hne. destruct old as [|o old']; [contradiction|]. reflexivity. Qed.
+
+  Lemma verify_full_unfold (st : cstate) (lh : list block) (g b1 : block) (r : list block) (now : Z) :
+    VERIFY st lh (g :: b1 :: r) [] now =
+    match VLOOP lh now 0 (mkC [] ureg_empty areg_empty) None (g :: b1 :: r) with
+    | Err e => Err e
+    | Ok sh =>
+      match last_block (chain sh) with
+      | None => Ok (g :: b1 :: r)
+      | Some l => match add_block H sh (b_ts l + s_interval Se)%Z None [] with
+                  | Err e => Err e
+                  | Ok _ => Ok (g :: b1 :: r)
+                  end
+      end
+    end.
+  Proof. reflexivity. Qed.
+
+  (* the incremental request: the answer starts with the host's own tip, followed by blocks of C *)
+  Theorem verify_prefix_page (st : cstate) (now : Z) (C old : list block) (tip : block)
+          (Q T : list block) (a : areg) :
+    chain_linked H C -> (exists u a, replay C = Ok (u, a)) -> page_verifiable now C ->
+    C = old ++ tip :: Q ++ T -> old <> [] ->
+    replay old = Ok (ur st, a) -> registered a = registered (ar st) ->
+    VERIFY st [tip] (tip :: Q) old now = Ok (tip :: Q).
+  Proof.
+    intros Hl Hrep Hpv E Hne Hr Ea.
+    rewrite (verify_inc_unfold st tip [] tip Q old now Hne).
+    rewrite hash_eqb_refl. cbn [negb].
+    destruct (exists_last Hne) as (old' & p0 & E0).
+    assert (Hlink : b_prev tip = H p0).
+    { apply (chain_linked_pair old' p0 tip (Q ++ T)). rewrite E, E0, <- app_assoc in Hl. exact Hl. }
+    assert (Es : VSTEP [tip] now 0 (mkC old (ur st) (ar st)) (last_block old) tip
+                 = Ok (mkC (old ++ [tip]) (ur st) (ar st))).
+    { rewrite E0 at 2. rewrite last_block_snoc'. unfold verify_step. cbv zeta.
+      rewrite Hlink, hash_eqb_refl. cbn [negb nth_error]. rewrite hash_eqb_refl. reflexivity. }
+    cbn [verify_loop]. rewrite Es.
+    destruct (vloop_tail_ok now C [tip] Hl Hrep Hpv Q old tip T
+                            (mkC (old ++ [tip]) (ur st) (ar st)) 0 a E eq_refl Hr Ea (le_n 1))
+      as (sh' & a' & Hloop & Hch' & Hr' & Ea').
+    rewrite Hloop.
+    destruct (@exists_last _ (tip :: Q)) as (Q' & lb & EQ); [discriminate|].
+    rewrite EQ, app_assoc in Hch'. rewrite EQ, app_assoc, removelast_last in Hr'.
+    apply (verify_finish_ok sh' (old ++ Q') lb a' (tip :: Q) Hch' Hr' Ea').
+    apply (replay_prefix_ok ((old ++ Q') ++ [lb]) T).
+    rewrite <- (app_assoc old Q' [lb]), <- EQ, <- app_assoc. cbn [app]. rewrite <- E. exact Hrep.
+  Qed.
+
+  (* the full request: the answer starts with the genesis block of C; it is verified from the
+     empty registers, the host's comparison window [lh] being at most one block long *)
+  Theorem verify_full_page (st : cstate) (now : Z) (C lh : list block) (g b1 : block)
+          (Q T : list block) :
+    chain_linked H C -> genesis_rooted C -> (exists u a, replay C = Ok (u, a)) ->
+    page_verifiable now C ->
+    C = g :: b1 :: Q ++ T -> length lh <= 1 ->
+    VERIFY st lh (g :: b1 :: Q) [] now = Ok (g :: b1 :: Q).
+  Proof.
+    intros Hl Hg Hrep Hpv E Hlh.
+    rewrite verify_full_unfold.
+    assert (Es : VSTEP lh now 0 (mkC [] ureg_empty areg_empty) None g
+                 = Ok (mkC [g] ureg_empty areg_empty)).
+    { unfold verify_step. cbv zeta. rewrite E in Hg. cbn [genesis_rooted] in Hg.
+      rewrite Hg, hash_eqb_refl. cbn [negb]. rewrite andb_false_r. reflexivity. }
+    cbn [verify_loop]. rewrite Es.
+    destruct (vloop_tail_ok now C lh Hl Hrep Hpv (b1 :: Q) [] g T
+                            (mkC [g] ureg_empty areg_empty) 0 areg_empty E eq_refl eq_refl eq_refl Hlh)
+      as (sh' & a' & Hloop & Hch' & Hr' & Ea').
+    change (VLOOP lh now 1 (mkC [g] ureg_empty areg_empty) (Some g) (b1 :: Q) = Ok sh') in Hloop.
+    cbn [verify_loop] in Hloop. cbn [verify_loop]. rewrite Hloop.
+    cbn [app] in Hch', Hr'.
+    destruct (@exists_last _ (g :: b1 :: Q)) as (Q' & lb & EQ); [discriminate|].
+    rewrite EQ in Hch'. rewrite EQ, removelast_last in Hr'.
+    apply (verify_finish_ok sh' Q' lb a' (g :: b1 :: Q) Hch' Hr' Ea').
+    apply (replay_prefix_ok (Q' ++ [lb]) T).
+    rewrite <- EQ. cbn [app]. rewrite <- E. exact Hrep.
+  Qed.
+
+  (* ---------------------------------------------------------------- *)
+  (* 3. one incremental round                                          *)
+  (* ---------------------------------------------------------------- *)
+
+  (* page size as a list length *)
+  Definition lim : nat := N.to_nat (s_limit Se).
+
+  (* what an honest neighbor holding C answers to the incremental request of the node [st]
+     (blockchain.go:118: startingBlockHeight = len(hostBlocks) - 1) ... *)
+  Definition serves_inc (C : list block) (st : cstate) (nb : neighbor) : Prop :=
+    nb_target nb <> host_target /\
+    exists page, blocks_page Se C (N.of_nat (length (chain st) - 1)) = Ok page /\
+                 nb_inc nb = RBlocks page.
+  (* ... and to the full request (blockchain.go:138: startingBlockHeight = 0) *)
+  Definition serves_full (C : list block) (nb : neighbor) : Prop :=
+    nb_target nb <> host_target /\
+    exists page, blocks_page Se C 0 = Ok page /\ nb_full nb = RBlocks page.
+  Definition serves (C : list block) (st : cstate) (nb : neighbor) : Prop :=
+    serves_inc C st nb /\ serves_full C nb.
+
+  Lemma honest_page (C old : list block) (tip : block) (R : list block) :
+    (N.of_nat (length C) + s_limit Se <= two64)%N -> 1 <= lim ->
+    C = old ++ tip :: R ->
+    blocks_page Se C (N.of_nat (length old)) = Ok (tip :: firstn (lim - 1) R).
+  Proof.
+    intros Hfit Hlim E. rewrite (blocks_page_spec Se C _ Hfit). rewrite Nat2N.id. f_equal.
+    rewrite E, skipn_length_app. fold lim. destruct lim as [|k]; [lia|].
+    cbn [firstn]. rewrite Nat.sub_succ, Nat.sub_0_r. reflexivity.
+  Qed.
+
+  Lemma aset_nonempty {V} (k : string) (v : V) (m : list (string * V)) : aset k v m <> [].
+  Proof. destruct m as [|[k' v'] r]; simpl; [discriminate|]. destruct (String.eqb k k'); discriminate. Qed.
+
+  Lemma aset_fold_host (v hostv : list block) : forall (nbs : list neighbor) (rest : cands),
+    (forall nb, In nb nbs -> nb_target nb <> host_target) ->
+    Forall (fun p => snd p = v) rest ->
+    exists rest',
+      fold_left (fun (m : cands) nb => aset (nb_target nb) v m) nbs ((host_target, hostv) :: rest)
+      = (host_target, hostv) :: rest' /\
+      Forall (fun p => snd p = v) rest' /\
+      (nbs <> [] \/ rest <> [] -> rest' <> []).
+  Proof.
+    induction nbs as [|nb r IH]; intros rest Hnames Hall; cbn [fold_left].
+    - exists rest. split; [reflexivity|]. split; [exact Hall|].
+      intros [Hc|Hc]; [contradiction | exact Hc].
+    - assert (Hk : String.eqb (nb_target nb) host_target = false).
+      { apply String.eqb_neq. apply Hnames. left. reflexivity. }
+      cbn [aset]. rewrite Hk.
+      destruct (IH (aset (nb_target nb) v rest)) as (rest' & Hf & Hall' & Hne').
+      + intros nb' Hin. apply Hnames. right. exact Hin.
+      + apply Forall_forall. intros p Hp. apply In_aset in Hp. destruct Hp as [Hp|Hp].
+        * subst p. reflexivity.
+        * rewrite Forall_forall in Hall. apply Hall. exact Hp.
+      + exists rest'. split; [exact Hf|]. split; [exact Hall'|].
+        intros _. apply Hne'. right. apply aset_nonempty.
+  Qed.
+
+  (* stage 1 when every neighbor answers the same verifying page [tip :: Q] *)
+  Lemma stage1_same_page (st : cstate) (now : Z) (nbs : list neighbor) (old : list block)
+        (tip : block) (Q : list block) :
+    chain st = old ++ [tip] -> 2 < length (chain st) ->
+    (forall nb, In nb nbs -> nb_target nb <> host_target /\ nb_inc nb = RBlocks (tip :: Q)) ->
+    VERIFY st [tip] (tip :: Q) old now = Ok (tip :: Q) ->
+    nbs <> [] ->
+    exists rest,
+      STAGE1 st now nbs = (host_target, old ++ [tip]) :: rest /\ rest <> [] /\
+      Forall (fun p => snd p = old ++ tip :: Q) rest.
+  Proof.
+    intros Hch Hlen Hnbs Hv Hne. unfold stage1.
+    destruct (Nat.ltb_spec 2 (length (chain st))) as [_|Hc]; [|lia].
+    rewrite Hch, removelast_last, last_block_snoc'.
+    rewrite (fold_left_ext_in _ (fun (m : cands) nb => aset (nb_target nb) (old ++ tip :: Q) m)).
+    - destruct (aset_fold_host (old ++ tip :: Q) (old ++ [tip]) nbs []) as (rest & Hf & Hall & Hn).
+      + intros nb Hin. apply (Hnbs nb Hin).
+      + constructor.
+      + exists rest. split; [exact Hf|]. split; [apply Hn; left; exact Hne | exact Hall].
+    - intros m nb Hin. destruct (Hnbs nb Hin) as [_ Hinc]. rewrite Hinc, Hv. reflexivity.
+  Qed.
+
+  Lemma candidates_no_fork (st : cstate) (now : Z) (nbs : list neighbor) :
+    2 <= length (STAGE1 st now nbs) -> CANDS st now nbs = STAGE1 st now nbs.
+  Proof.
+    intros Hl. unfold candidates, stage2, is_fork.
+    destruct (Nat.ltb_spec (length (STAGE1 st now nbs)) 2) as [Hc|_]; [lia|].
+    rewrite andb_false_r. reflexivity.
+  Qed.
+
+  (* ---- the filters on candidates that all extend the host's chain ---- *)
+
+  Lemma prev_at_app (P X : list block) (k : nat) : k < length P -> prev_at (P ++ X) k = prev_at P k.
+  Proof. intros Hk. unfold prev_at. rewrite nth_error_app1 by exact Hk. reflexivity. Qed.
+
+  Lemma survivors_extending (st : cstate) (m : cands) (P Q : list block) :
+    chain st = P -> P <> [] -> Q <> [] ->
+    (forall p, In p m -> snd p = P \/ snd p = P ++ Q) ->
+    (exists t, In (t, P ++ Q) m) ->
+    (forall p, In p (survivors st m) -> snd p = P ++ Q) /\
+    (forall t, In (t, P ++ Q) m -> In (t, P ++ Q) (survivors st m)).
+  Proof.
+    intros Hch HP HQ Hall [t0 Ht0].
+    assert (HlenP : 0 < length P) by (destruct P; [contradiction | simpl; lia]).
+    assert (HlenQ : 0 < length Q) by (destruct Q; [contradiction | simpl; lia]).
+    assert (Hmax : max_len (length P) m = length (P ++ Q)).
+    { destruct (max_len_ge (length P) m) as [Hge Hle].
+      pose proof (Hle _ Ht0) as Hle0. cbn [snd] in Hle0. rewrite app_length in *.
+      destruct (max_len_attained (length P) m) as [Hm|(p & Hp & Hm)]; [lia|].
+      destruct (Hall p Hp) as [Ep|Ep]; rewrite Ep in Hm; [lia|]. rewrite app_length in Hm. lia. }
+    assert (Hbc : forall c, c = P \/ c = P ++ Q -> branch_count (length P) m c = length m).
+    { intros c Hc. unfold branch_count. f_equal. apply filter_all_true. intros q Hq.
+      apply hash_eqb_eq.
+      assert (Hk : min_len (length P) m - 1 < length P).
+      { destruct (min_len_le (length P) m) as [Hmin _]. lia. }
+      assert (Hpre : forall c', c' = P \/ c' = P ++ Q ->
+                                prev_at c' (min_len (length P) m - 1) = prev_at P (min_len (length P) m - 1)).
+      { intros c' [Ec|Ec]; subst c'; [reflexivity | apply prev_at_app; exact Hk]. }
+      rewrite (Hpre c Hc), (Hpre (snd q) (Hall q Hq)). reflexivity. }
+    assert (Hhalf : length m / 2 <= length m) by (apply Nat.div_le_upper_bound; lia).
+    split.
+    - intros p Hp. apply survivors_spec in Hp. rewrite Hch in Hp. destruct Hp as (Hin & _ & Hlen).
+      destruct (Hall p Hin) as [Ep|Ep]; [|exact Ep].
+      rewrite Ep, Hmax, app_length in Hlen. lia.
+    - intros t Ht. apply survivors_spec. rewrite Hch. cbn [snd].
+      split; [exact Ht|]. split; [|symmetry; exact Hmax].
+      rewrite Hbc by (right; reflexivity). exact Hhalf.
+  Qed.
+
+  (* ---- the arg-max ---- *)
+
+  Lemma age_loop_ge (target : string) : forall (l : list block) (age : N),
+    (age <= age_loop target l age)%N.
+  Proof.
+    induction l as [|b r IH]; intros age; cbn [age_loop]; [lia|].
+    destruct (find is_reward (txs b)) as [t|]; [|apply IH].
+    destruct (String.eqb (reward_addr t) target); [lia|].
+    pose proof (IH (age + 1)%N). lia.
+  Qed.
+
+  Lemma age_of_pos (c : list block) : 2 <= length c -> rewarded c -> (0 < age_of c)%N.
+  Proof.
+    intros Hlen Hrw.
+    destruct (@exists_last _ c) as (c' & lb & E); [destruct c; [simpl in Hlen; lia | discriminate]|].
+    destruct (@exists_last _ c') as (X & p & E').
+    { subst c. destruct c'; [simpl in Hlen; lia | discriminate]. }
+    subst c c'. unfold rewarded in Hrw. rewrite Forall_forall in Hrw.
+    destruct (Hrw p) as (t & Ht & Hisr).
+    { apply in_or_app. left. apply in_or_app. right. left. reflexivity. }
+    unfold age_of. rewrite !rev_app_distr. cbn [rev app age_loop].
+    destruct (find is_reward (txs p)) as [t'|] eqn:Ef.
+    - destruct (String.eqb (reward_addr t') (last_recipient lb)); [lia|].
+      pose proof (age_loop_ge (last_recipient lb) (rev X) (0 + 1)%N). lia.
+    - exfalso. pose proof (find_none _ _ Ef t Ht) as Hn. rewrite Hisr in Hn. discriminate.
+  Qed.
+
+  Lemma select_unique (pref : string) (m : cands) (v : list block) :
+    m <> [] -> (forall p, In p m -> snd p = v) -> (0 < age_of v)%N -> select pref m = Some v.
+  Proof.
+    intros Hne Hall Hage. destruct (select pref m) as [sel|] eqn:Es.
+    - apply select_spec in Es. destruct Es as [[t Ht] _]. f_equal. apply (Hall _ Ht).
+    - exfalso. destruct m as [|p0 r]; [contradiction|].
+      pose proof (proj1 (select_none pref (p0 :: r)) Es p0 (or_introl eq_refl)) as Hz.
+      rewrite (Hall p0 (or_introl eq_refl)) in Hz. lia.
+  Qed.
+
+  Lemma rewarded_app_l (X Y : list block) : rewarded (X ++ Y) -> rewarded X.
+  Proof. unfold rewarded. intros Hr. apply Forall_app in Hr. apply Hr. Qed.
+
+  Lemma replay_from_prefix_ok (u : ureg) (a : areg) (X Y : list block) (u2 : ureg) (a2 : areg) :
+    replay_from u a (X ++ Y) = Ok (u2, a2) -> exists u1 a1, replay_from u a X = Ok (u1, a1).
+  Proof.
+    rewrite replay_from_app. destruct (replay_from u a X) as [[u1 a1]|e]; simpl; [|discriminate].
+    intros _. exists u1, a1. reflexivity.
+  Qed.
+
+  (* the candidates of a round in which every neighbor serves C to a node holding the prefix
+     [old ++ [tip]] of C = old ++ tip :: R: the host's entry first, then at least one entry, all
+     of them the host's chain extended by the next [lim - 1] blocks of C; no full re-sync *)
+  Lemma served_round_cands (st : cstate) (now : Z) (nbs : list neighbor)
+        (C old : list block) (tip : block) (R : list block) :
+    servable now C -> C = old ++ tip :: R -> chain st = old ++ [tip] -> 2 < length (chain st) ->
+    denotes (chain st) (ur st) (ar st) ->
+    1 <= lim -> (N.of_nat (length C) + s_limit Se <= two64)%N ->
+    nbs <> [] -> (forall nb, In nb nbs -> serves_inc C st nb) ->
+    exists rest,
+      CANDS st now nbs = (host_target, old ++ [tip]) :: rest /\
+      is_fork st (STAGE1 st now nbs) nbs = false /\
+      rest <> [] /\
+      Forall (fun p => snd p = (old ++ [tip]) ++ firstn (lim - 1) R) rest.
+  Proof.
+    intros (Hl & Hg & Hrep & Hpv & Hrw & Hts) E Hch Hlen (a & Hr & Ea) Hlim Hfit Hne Hnbs.
+    set (Q := firstn (lim - 1) R). set (T := skipn (lim - 1) R).
+    assert (ER : R = Q ++ T) by (symmetry; apply firstn_skipn).
+    assert (Hold : old <> []).
+    { intros E0. subst old. rewrite Hch in Hlen. simpl in Hlen. lia. }
+    rewrite Hch, removelast_last in Hr.
+    assert (E' : C = old ++ tip :: Q ++ T) by (rewrite <- ER; exact E).
+    pose proof (verify_prefix_page st now C old tip Q T a Hl Hrep Hpv E' Hold Hr Ea) as Hv.
+    assert (Hpage : forall nb, In nb nbs ->
+                               nb_target nb <> host_target /\ nb_inc nb = RBlocks (tip :: Q)).
+    { intros nb Hin. destruct (Hnbs nb Hin) as (Hname & page & Hp & Hinc). split; [exact Hname|].
+      rewrite Hch, app_length in Hp. cbn [length] in Hp.
+      replace (length old + 1 - 1) with (length old) in Hp by lia.
+      rewrite (honest_page C old tip R Hfit Hlim E) in Hp. inversion Hp; subst page. exact Hinc. }
+    destruct (stage1_same_page st now nbs old tip Q Hch Hlen Hpage Hv Hne) as (rest & Hs1 & Hrne & Hall).
+    assert (Hl2 : 2 <= length (STAGE1 st now nbs)).
+    { rewrite Hs1. destruct rest; [contradiction | simpl; lia]. }
+    exists rest. split; [rewrite (candidates_no_fork st now nbs Hl2); exact Hs1|].
+    split.
+    { unfold is_fork. destruct (Nat.ltb_spec (length (STAGE1 st now nbs)) 2) as [Hc|_]; [lia|].
+      rewrite andb_false_r. reflexivity. }
+    split; [exact Hrne|].
+    eapply Forall_impl; [|exact Hall]. intros p Hp. rewrite Hp, <- app_assoc. reflexivity.
+  Qed.
+
+  (* the round of a node that holds a proper prefix of C, longer than two blocks *)
+  Theorem round_extends_prefix (st : cstate) (now : Z) (nbs : list neighbor) (pref : string)
+          (C P R : list block) :
+    servable now C -> C = P ++ R -> R <> [] -> chain st = P -> 2 < length P ->
+    denotes P (ur st) (ar st) ->
+    (3 <= s_limit Se)%N -> (N.of_nat (length C) + s_limit Se <= two64)%N ->
+    nbs <> [] -> (forall nb, In nb nbs -> serves_inc C st nb) ->
+    exists st',
+      UPDATE st now nbs pref = (st', true) /\
+      chain st' = P ++ firstn (lim - 1) R /\
+      denotes (chain st') (ur st') (ar st').
+  Proof.
+    intros Hserv E HR Hch Hlen Hden Hlim3 Hfit Hne Hnbs.
+    assert (Hlim : 3 <= lim) by (unfold lim; lia).
+    assert (HP : P <> []) by (intros E0; rewrite E0 in Hlen; simpl in Hlen; lia).
+    destruct (exists_last HP) as (old & tip & EP).
+    assert (E' : C = old ++ tip :: R) by (rewrite E, EP, <- app_assoc; reflexivity).
+    assert (Hch' : chain st = old ++ [tip]) by (rewrite Hch; exact EP).
+    assert (Hlen' : 2 < length (chain st)) by (rewrite Hch; exact Hlen).
+    assert (Hden' : denotes (chain st) (ur st) (ar st)) by (rewrite Hch; exact Hden).
+    destruct (served_round_cands st now nbs C old tip R Hserv E' Hch' Hlen' Hden'
+                                 ltac:(lia) Hfit Hne Hnbs)
+      as (rest & Hc & Hfk & Hrne & Hall).
+    rewrite <- EP in Hc, Hall.
+    set (Q := firstn (lim - 1) R) in *.
+    assert (HQ : Q <> []).
+    { unfold Q. destruct R as [|r0 R']; [contradiction|].
+      destruct (lim - 1) as [|k] eqn:Ek; [lia|]. discriminate. }
+    destruct Hserv as (Hl & Hg & Hrep & Hpv & Hrw & Hts).
+    assert (ER : R = Q ++ skipn (lim - 1) R) by (symmetry; apply firstn_skipn).
+    (* the filters and the arg-max *)
+    set (m := (host_target, P) :: rest) in *.
+    assert (Hm : forall p, In p m -> snd p = P \/ snd p = P ++ Q).
+    { intros p [Hp|Hp]; [subst p; left; reflexivity|right].
+      rewrite Forall_forall in Hall. apply Hall. exact Hp. }
+    assert (Hex : exists t, In (t, P ++ Q) m).
+    { destruct rest as [|[t0 v0] rest']; [contradiction|]. exists t0.
+      right. left. rewrite Forall_forall in Hall.
+      rewrite <- (Hall (t0, v0) (or_introl eq_refl)). reflexivity. }
+    destruct (survivors_extending st m P Q Hch HP HQ Hm Hex) as [Hsv1 Hsv2].
+    assert (Hsel : select pref (survivors st m) = Some (P ++ Q)).
+    { apply select_unique.
+      - destruct Hex as [t Ht]. intros E0. pose proof (Hsv2 t Ht) as Hin. rewrite E0 in Hin. destruct Hin.
+      - exact Hsv1.
+      - apply age_of_pos.
+        + rewrite app_length. lia.
+        + apply (rewarded_app_l (P ++ Q) (skipn (lim - 1) R)).
+          rewrite <- app_assoc, <- ER, <- E. exact Hrw. }
+    assert (HlenQ : 0 < length Q) by (destruct Q; [contradiction | simpl; lia]).
+    (* the commit *)
+    destruct Hden as (a & Hr & Ea). rewrite EP, removelast_last in Hr.
+    assert (Hnews : slice_blocks (P ++ Q) (length P - 1) (length (P ++ Q) - 1)
+                    = removelast (tip :: Q)).
+    { unfold slice_blocks. rewrite EP, <- app_assoc. cbn [app].
+      rewrite !app_length. cbn [length].
+      replace (length old + 1 - 1) with (length old) by lia.
+      rewrite skipn_length_app, removelast_firstn_len. cbn [length]. f_equal. lia. }
+    assert (Hcommit : exists u' a', replay_from (ur st) (ar st) (removelast (tip :: Q)) = Ok (u', a')).
+    { assert (Hpre : exists u a, replay (old ++ tip :: Q) = Ok (u, a)).
+      { apply (replay_prefix_ok (old ++ tip :: Q) (skipn (lim - 1) R)).
+        rewrite <- app_assoc. cbn [app]. rewrite <- ER, <- E'. exact Hrep. }
+      destruct Hpre as (u2 & a2 & Hp2).
+      destruct (replay_app_inv _ _ _ _ Hp2) as (u1 & a1 & Hx & Hy).
+      rewrite Hr in Hx. inversion Hx; subst u1 a1.
+      rewrite (app_removelast_last tip (l := tip :: Q)) in Hy by discriminate.
+      destruct (replay_from_prefix_ok _ _ _ _ _ _ Hy) as (u' & a' & Hy').
+      destruct (replay_from_reg_irrel _ _ _ _ _ _ Ea Hy') as (a'' & Hy'' & _).
+      exists u', a''. exact Hy''. }
+    destruct Hcommit as (u' & a' & Hcl). apply commit_loop_spec in Hcl.
+    assert (Hu : UPDATE st now nbs pref = (mkC (P ++ Q) u' a', true)).
+    { rewrite update_unfold, Hc. fold m. rewrite Hsel, Hfk.
+      unfold is_different, commit_input. rewrite Hch.
+      destruct (Nat.ltb_spec (length P) (length (P ++ Q))) as [_|Hc']; [|rewrite app_length in Hc'; lia].
+      destruct (Nat.eqb_spec (length (P ++ Q)) 0) as [Hz|_]; [rewrite app_length in Hz; lia|].
+      cbn [andb negb]. rewrite Hnews, Hcl. reflexivity. }
+    exists (mkC (P ++ Q) u' a'). split; [exact Hu|]. split; [reflexivity|].
+    apply (update_denotes value_fn addr_of sig_ok H Se st now nbs pref _ true); [|exact Hden'|exact Hu].
+    intros nb Hin. apply (Hnbs nb Hin).
+  Qed.
+
+  (* a node that already holds C keeps it *)
+  Theorem round_stable (st : cstate) (now : Z) (nbs : list neighbor) (pref : string)
+          (C : list block) :
+    servable now C -> chain st = C -> 2 < length C ->
+    denotes C (ur st) (ar st) ->
+    (1 <= s_limit Se)%N -> (N.of_nat (length C) + s_limit Se <= two64)%N ->
+    (forall nb, In nb nbs -> serves_inc C st nb) ->
+    UPDATE st now nbs pref = (st, false).
+  Proof.
+    intros Hserv Hch Hlen Hden Hlim1 Hfit Hnbs.
+    destruct nbs as [|nb0 nbs0]; [apply update_no_neighbors|].
+    assert (Hlim : 1 <= lim) by (unfold lim; lia).
+    assert (HP : C <> []) by (intros E0; rewrite E0 in Hlen; simpl in Hlen; lia).
+    destruct (exists_last HP) as (old & tip & EP).
+    assert (E' : C = old ++ tip :: []) by exact EP.
+    assert (Hch' : chain st = old ++ [tip]) by (rewrite Hch; exact EP).
+    assert (Hlen' : 2 < length (chain st)) by (rewrite Hch; exact Hlen).
+    assert (Hden' : denotes (chain st) (ur st) (ar st)) by (rewrite Hch; exact Hden).
+    destruct (served_round_cands st now (nb0 :: nbs0) C old tip [] Hserv E' Hch' Hlen' Hden'
+                                 Hlim Hfit ltac:(discriminate) Hnbs)
+      as (rest & Hc & _ & _ & Hall).
+    rewrite firstn_nil, app_nil_r, <- Hch' in Hall. rewrite <- Hch' in Hc.
+    assert (Hm : forall p, In p (CANDS st now (nb0 :: nbs0)) -> snd p = chain st).
+    { rewrite Hc. intros p [Hp|Hp]; [subst p; reflexivity|].
+      rewrite Forall_forall in Hall. apply Hall. exact Hp. }
+    destruct (select pref (survivors st (CANDS st now (nb0 :: nbs0)))) as [sel|] eqn:Es.
+    - pose proof Es as Es'. apply select_spec in Es'. destruct Es' as [[t Ht] _].
+      apply survivors_incl in Ht. apply Hm in Ht. cbn [snd] in Ht. subst sel.
+      apply (update_identical_kept _ _ _ _ _ _ _ _ _ _ Es); [lia|].
+      intros x y Hx Hy. rewrite Hx in Hy. inversion Hy. reflexivity.
+    - apply update_none_selected_kept. exact Es.
+  Qed.
+
+  (* ---------------------------------------------------------------- *)
+  (* 5. the short starts: one full round                               *)
+  (* ---------------------------------------------------------------- *)
+
+  Lemma aset_fold_all (v : list block) : forall (nbs : list neighbor) (m0 : cands),
+    Forall (fun p => snd p = v) m0 ->
+    Forall (fun p => snd p = v) (fold_left (fun (m : cands) nb => aset (nb_target nb) v m) nbs m0) /\
+    (nbs <> [] \/ m0 <> [] ->
+     fold_left (fun (m : cands) nb => aset (nb_target nb) v m) nbs m0 <> []).
+  Proof.
+    induction nbs as [|nb r IH]; intros m0 Hall; cbn [fold_left].
+    - split; [exact Hall|]. intros [Hc|Hc]; [contradiction | exact Hc].
+    - destruct (IH (aset (nb_target nb) v m0)) as [Hall' Hne'].
+      + apply Forall_forall. intros p Hp. apply In_aset in Hp. destruct Hp as [Hp|Hp].
+        * subst p. reflexivity.
+        * rewrite Forall_forall in Hall. apply Hall. exact Hp.
+      + split; [exact Hall'|]. intros _. apply Hne'. right. apply aset_nonempty.
+  Qed.
+
+  Lemma survivors_all_same (st : cstate) (m : cands) (v : list block) :
+    m <> [] -> (forall p, In p m -> snd p = v) -> length (chain st) <= length v ->
+    forall p, In p (survivors st m) <-> In p m.
+  Proof.
+    intros Hne Hall Hlen p. rewrite survivors_spec. split; [intros (Hin & _); exact Hin|].
+    intros Hin. split; [exact Hin|].
+    assert (Hmax : max_len (length (chain st)) m = length v).
+    { destruct (max_len_ge (length (chain st)) m) as [Hge Hle].
+      pose proof (Hle p Hin) as Hle0. rewrite (Hall p Hin) in Hle0.
+      destruct (max_len_attained (length (chain st)) m) as [Hm|(q & Hq & Hm)]; [lia|].
+      rewrite (Hall q Hq) in Hm. symmetry. exact Hm. }
+    split; [|rewrite (Hall p Hin); symmetry; exact Hmax].
+    assert (Hbc : branch_count (length (chain st)) m (snd p) = length m).
+    { unfold branch_count. f_equal. apply filter_all_true. intros q Hq.
+      rewrite (Hall p Hin), (Hall q Hq). apply hash_eqb_refl. }
+    rewrite Hbc. apply Nat.div_le_upper_bound; lia.
+  Qed.
+
+  (* a node holding one or two blocks (any blocks: it need not be on C): stage 1 is skipped, every
+     neighbor's full answer is the first page of C, and that page is selected *)
+  Lemma full_round_select (st : cstate) (now : Z) (nbs : list neighbor) (pref : string)
+        (C : list block) :
+    servable now C ->
+    1 <= length (chain st) <= 2 -> 2 <= length C ->
+    (3 <= s_limit Se)%N -> (N.of_nat (length C) + s_limit Se <= two64)%N ->
+    nbs <> [] -> (forall nb, In nb nbs -> serves_full C nb) ->
+    CANDS st now nbs <> [] /\
+    select pref (survivors st (CANDS st now nbs)) = Some (firstn lim C) /\
+    is_fork st (STAGE1 st now nbs) nbs = true.
+  Proof.
+    intros (Hl & Hg & Hrep & Hpv & Hrw & Hts) Hlen Hlen2 Hlim3 Hfit Hne Hnbs.
+    assert (Hlim : 3 <= lim) by (unfold lim; lia).
+    destruct C as [|g [|b1 C2]]; [simpl in Hlen2; lia | simpl in Hlen2; lia |].
+    set (C := g :: b1 :: C2) in *.
+    set (Q := firstn (lim - 2) C2). set (T := skipn (lim - 2) C2).
+    assert (EC : C = g :: b1 :: Q ++ T) by (unfold C, Q, T; rewrite firstn_skipn; reflexivity).
+    assert (EF : firstn lim C = g :: b1 :: Q).
+    { unfold C, Q. destruct lim as [|[|k]]; [lia | lia |]. cbn [firstn].
+      replace (Datatypes.S (Datatypes.S k) - 2) with k by lia. reflexivity. }
+    rewrite EF. set (F := g :: b1 :: Q) in *.
+    assert (Hpage : blocks_page Se C 0 = Ok F).
+    { rewrite (blocks_page_spec Se C 0 Hfit). fold lim. change (N.to_nat 0) with 0.
+      cbn [skipn]. rewrite EF. reflexivity. }
+    assert (Hlh : length (removelast (chain st)) <= 1) by (rewrite removelast_len; lia).
+    pose proof (verify_full_page st now C (removelast (chain st)) g b1 Q T Hl Hg Hrep Hpv EC Hlh) as Hv.
+    fold F in Hv.
+    assert (Hs1 : STAGE1 st now nbs = []).
+    { unfold stage1. destruct (Nat.ltb_spec 2 (length (chain st))) as [Hc|_]; [lia | reflexivity]. }
+    assert (Hfk : is_fork st (STAGE1 st now nbs) nbs = true).
+    { rewrite Hs1. unfold is_fork.
+      destruct (Nat.ltb_spec 0 (length (chain st))) as [_|Hc]; [|lia].
+      destruct (Nat.ltb_spec 0 (length nbs)) as [_|Hc]; [reflexivity|].
+      destruct nbs; [contradiction | simpl in Hc; lia]. }
+    set (m := fold_left (fun (m : cands) nb => aset (nb_target nb) F m) nbs []).
+    assert (Hc : CANDS st now nbs = m).
+    { unfold candidates, stage2. rewrite Hfk, Hs1. apply fold_left_ext_in.
+      intros m0 nb Hin. destruct (Hnbs nb Hin) as (_ & page & Hp & Hfull).
+      rewrite Hpage in Hp. inversion Hp; subst page. rewrite Hfull, Hv. reflexivity. }
+    destruct (aset_fold_all F nbs [] (Forall_nil _)) as [Hall Hmne]. fold m in Hall, Hmne.
+    assert (Hmne' : m <> []) by (apply Hmne; left; exact Hne).
+    rewrite Forall_forall in Hall.
+    assert (HlenF : length (chain st) <= length F) by (unfold F; simpl; lia).
+    assert (Hsurv : forall p, In p (survivors st m) <-> In p m).
+    { apply (survivors_all_same st m F Hmne' Hall HlenF). }
+    rewrite Hc. split; [exact Hmne'|]. split; [|exact Hfk].
+    apply select_unique.
+    - destruct m as [|p0 r]; [contradiction|]. intros E0.
+      pose proof (proj2 (Hsurv p0) (or_introl eq_refl)) as Hin. rewrite E0 in Hin. destruct Hin.
+    - intros p Hp. apply Hall, Hsurv, Hp.
+    - apply age_of_pos; [unfold F; simpl; lia|].
+      apply (rewarded_app_l F T). unfold F. cbn [app]. rewrite <- EC. exact Hrw.
+  Qed.
+
+  (* ... and adopted when the node holds fewer blocks than C *)
+  Theorem round_full_adopts (st : cstate) (now : Z) (nbs : list neighbor) (pref : string)
+          (C : list block) :
+    servable now C ->
+    1 <= length (chain st) <= 2 -> length (chain st) < length C ->
+    (3 <= s_limit Se)%N -> (N.of_nat (length C) + s_limit Se <= two64)%N ->
+    nbs <> [] -> (forall nb, In nb nbs -> serves_full C nb) ->
+    exists st',
+      UPDATE st now nbs pref = (st', true) /\
+      chain st' = firstn lim C /\
+      replay (removelast (chain st')) = Ok (ur st', ar st').
+  Proof.
+    intros Hserv Hlen Hshort Hlim3 Hfit Hne Hnbs.
+    destruct (full_round_select st now nbs pref C Hserv Hlen ltac:(lia) Hlim3 Hfit Hne Hnbs)
+      as (Hcne & Hsel & Hfk).
+    destruct Hserv as (Hl & Hg & Hrep & Hpv & Hrw & Hts).
+    assert (Hlim : 3 <= lim) by (unfold lim; lia).
+    set (F := firstn lim C) in *.
+    assert (HlenF : length (chain st) < length F) by (unfold F; rewrite firstn_length; lia).
+    assert (HF : F <> []) by (intros E0; rewrite E0 in HlenF; simpl in HlenF; lia).
+    assert (Hcommit : exists u' a', replay (removelast F) = Ok (u', a')).
+    { apply (replay_prefix_ok (removelast F) ([last F (mkBlock [] None None 0 None)] ++ skipn lim C)).
+      rewrite app_assoc, <- (app_removelast_last _ HF). unfold F. rewrite firstn_skipn. exact Hrep. }
+    destruct Hcommit as (u' & a' & Hcl). pose proof Hcl as Hcl'.
+    unfold replay in Hcl'. apply commit_loop_spec in Hcl'.
+    exists (mkC F u' a'). split; [|split; [reflexivity | exact Hcl]].
+    rewrite update_unfold, Hsel, Hfk. unfold is_different, commit_input.
+    destruct (Nat.ltb_spec (length (chain st)) (length F)) as [_|Hc']; [|lia].
+    destruct (Nat.eqb_spec (length F) 0) as [Hz|_]; [lia|].
+    cbn [andb negb]. rewrite Hcl'.
+    destruct (CANDS st now nbs) as [|p0 r]; [contradiction | reflexivity].
+  Qed.
+
+  (* ... and changes nothing when the node already holds the two-block chain C *)
+  Theorem round_full_stable (st : cstate) (now : Z) (nbs : list neighbor) (pref : string)
+          (C : list block) :
+    servable now C -> chain st = C -> length C = 2 ->
+    (3 <= s_limit Se)%N -> (N.of_nat (length C) + s_limit Se <= two64)%N ->
+    (forall nb, In nb nbs -> serves_full C nb) ->
+    UPDATE st now nbs pref = (st, false).
+  Proof.
+    intros Hserv Hch Hlen2 Hlim3 Hfit Hnbs.
+    destruct nbs as [|nb0 nbs0]; [apply update_no_neighbors|].
+    assert (Hlim : 3 <= lim) by (unfold lim; lia).
+    destruct (full_round_select st now (nb0 :: nbs0) pref C Hserv ltac:(rewrite Hch; lia) ltac:(lia)
+                                Hlim3 Hfit ltac:(discriminate) Hnbs)
+      as (_ & Hsel & _).
+    rewrite firstn_all2 in Hsel by lia.
+    apply (update_identical_kept _ _ _ _ _ _ _ _ _ _ Hsel); [rewrite Hch; lia|].
+    intros x y Hx Hy. rewrite Hch, Hx in Hy. inversion Hy. reflexivity.
+  Qed.
+
+  (* ---------------------------------------------------------------- *)
+  (* 4. several rounds                                                 *)
+  (* ---------------------------------------------------------------- *)
+
+  (* [n] sync rounds of a node all of whose neighbors, at every round, are honest nodes holding C.
+     The environment chooses the time of each round (not before [now0]), the neighbor set (not
+     empty), and the map-iteration order of the arg-max ([pref]). *)
+  Inductive sync_rounds (C : list block) (now0 : Z) : cstate -> nat -> cstate -> Prop :=
+  | sr_done (st : cstate) : sync_rounds C now0 st 0 st
+  | sr_round (st : cstate) (now : Z) (nbs : list neighbor) (pref : string) (n : nat) (st' : cstate) :
+      (now0 <= now)%Z -> nbs <> [] -> (forall nb, In nb nbs -> serves C st nb) ->
+      sync_rounds C now0 (fst (UPDATE st now nbs pref)) n st' ->
+      sync_rounds C now0 st (Datatypes.S n) st'.
+
+  (* from a prefix longer than two blocks: [lim - 1] more blocks of C at every round *)
+  Theorem rounds_converge (C : list block) (now0 : Z) :
+    servable now0 C -> (3 <= s_limit Se)%N -> (N.of_nat (length C) + s_limit Se <= two64)%N ->
+    forall (n : nat) (st st' : cstate),
+      sync_rounds C now0 st n st' ->
+      prefix (chain st) C -> 2 < length (chain st) ->
+      denotes (chain st) (ur st) (ar st) ->
+      length C - length (chain st) <= n * (lim - 1) ->
+      chain st' = C /\ denotes C (ur st') (ar st').
+  Proof.
+    intros Hserv Hlim3 Hfit n st st' Hrun.
+    induction Hrun as [st | st now nbs pref n st' Hnow Hne Hnbs Hrun IH]; intros [R E] Hlen Hden Hn.
+    - assert (HR : R = []).
+      { apply length_zero_iff_nil. rewrite E, app_length in Hn. lia. }
+      rewrite HR, app_nil_r in E. rewrite <- E in Hden. split; [symmetry; exact E | exact Hden].
+    - pose proof (servable_later now0 now C Hnow Hserv) as Hserv'.
+      assert (Hinc : forall nb, In nb nbs -> serves_inc C st nb) by (intros nb Hin; apply (Hnbs nb Hin)).
+      destruct R as [|r0 R'].
+      + rewrite app_nil_r in E.
+        assert (Hu : UPDATE st now nbs pref = (st, false)).
+        { apply (round_stable st now nbs pref C Hserv'); [symmetry; exact E | rewrite E; exact Hlen | | lia | exact Hfit | exact Hinc].
+          rewrite E. exact Hden. }
+        rewrite Hu in IH. cbn [fst] in IH. apply IH; [exists []; rewrite app_nil_r; exact E | exact Hlen | exact Hden|].
+        rewrite E, Nat.sub_diag. apply Nat.le_0_l.
+      + destruct (round_extends_prefix st now nbs pref C (chain st) (r0 :: R') Hserv' E ltac:(discriminate)
+                                       eq_refl Hlen Hden Hlim3 Hfit Hne Hinc)
+          as (st1 & Hu & Hch1 & Hden1).
+        rewrite Hu in IH. cbn [fst] in IH. apply IH.
+        * exists (skipn (lim - 1) (r0 :: R')). rewrite Hch1, <- app_assoc, firstn_skipn. exact E.
+        * rewrite Hch1, app_length. lia.
+        * exact Hden1.
+        * rewrite Hch1, E, !app_length, firstn_length. rewrite E, app_length in Hn.
+          rewrite Nat.mul_succ_l in Hn. set (nk := n * (lim - 1)) in *. lia.
+  Qed.
+
+  Lemma rounds_stable_two (C : list block) (now0 : Z) :
+    servable now0 C -> (3 <= s_limit Se)%N -> (N.of_nat (length C) + s_limit Se <= two64)%N ->
+    length C = 2 ->
+    forall (n : nat) (st st' : cstate),
+      sync_rounds C now0 st n st' -> chain st = C -> st' = st.
+  Proof.
+    intros Hserv Hlim3 Hfit Hlen2 n st st' Hrun.
+    induction Hrun as [st | st now nbs pref n st' Hnow Hne Hnbs Hrun IH]; intros Hch; [reflexivity|].
+    pose proof (servable_later now0 now C Hnow Hserv) as Hserv'.
+    assert (Hu : UPDATE st now nbs pref = (st, false)).
+    { apply (round_full_stable st now nbs pref C Hserv' Hch Hlen2 Hlim3 Hfit).
+      intros nb Hin. apply (Hnbs nb Hin). }
+    rewrite Hu in IH. cbn [fst] in IH. apply IH. exact Hch.
+  Qed.
+
+  (* from any start the property allows: one full round if the node holds one or two blocks, then
+     the incremental rounds *)
+  Theorem sync_converges (C : list block) (now0 : Z) :
+    servable now0 C -> (3 <= s_limit Se)%N -> (N.of_nat (length C) + s_limit Se <= two64)%N ->
+    2 <= length C ->
+    forall (n : nat) (st st' : cstate),
+      sync_rounds C now0 st n st' ->
+      1 <= length (chain st) ->
+      (prefix (chain st) C \/ (length (chain st) <= 2 /\ length (chain st) < length C)) ->
+      denotes (chain st) (ur st) (ar st) ->
+      1 + ceil_div (length C) (lim - 1) <= n ->
+      chain st' = C /\ denotes C (ur st') (ar st').
+  Proof.
+    intros Hserv Hlim3 Hfit HlenC n st st' Hrun Hlen1 Hstart Hden Hn.
+    assert (Hlim : 3 <= lim) by (unfold lim; lia).
+    assert (Hk : 0 < lim - 1) by lia.
+    pose proof (ceil_div_ok (length C) (lim - 1) Hk) as Hceil.
+    destruct (Nat.ltb_spec 2 (length (chain st))) as [Hlong|Hshort].
+    - (* already longer than two blocks *)
+      destruct Hstart as [Hpre|[Hc _]]; [|lia].
+      apply (rounds_converge C now0 Hserv Hlim3 Hfit n st st' Hrun Hpre Hlong Hden).
+      assert (Hmul : ceil_div (length C) (lim - 1) * (lim - 1) <= n * (lim - 1))
+        by (apply Nat.mul_le_mono_r; lia).
+      lia.
+    - destruct (Nat.ltb_spec (length (chain st)) (length C)) as [Hlt|Hge].
+      + (* one full round first *)
+        destruct n as [|n']; [lia|].
+        inversion Hrun as [|st0 now nbs pref n0 st0' Hnow Hne Hnbs Hrun' E1 E2 E3]; subst st0 n0 st0'.
+        pose proof (servable_later now0 now C Hnow Hserv) as Hserv'.
+        assert (Hfull : forall nb, In nb nbs -> serves_full C nb) by (intros nb Hin; apply (Hnbs nb Hin)).
+        destruct (round_full_adopts st now nbs pref C Hserv' (conj Hlen1 Hshort) Hlt Hlim3 Hfit Hne Hfull)
+          as (st1 & Hu & Hch1 & Hr1).
+        rewrite Hu in Hrun'. cbn [fst] in Hrun'.
+        assert (Hden1 : denotes (chain st1) (ur st1) (ar st1)).
+        { exists (ar st1). split; [exact Hr1 | reflexivity]. }
+        assert (Hpre1 : prefix (chain st1) C).
+        { exists (skipn lim C). rewrite Hch1, firstn_skipn. reflexivity. }
+        assert (Hlen1' : length (chain st1) = Nat.min lim (length C)) by (rewrite Hch1; apply firstn_length).
+        destruct (Nat.ltb_spec 2 (length (chain st1))) as [Hlong1|Hshort1].
+        * apply (rounds_converge C now0 Hserv Hlim3 Hfit n' st1 st' Hrun' Hpre1 Hlong1 Hden1).
+          assert (Hmul : ceil_div (length C) (lim - 1) * (lim - 1) <= n' * (lim - 1))
+            by (apply Nat.mul_le_mono_r; lia).
+          lia.
+        * assert (HC2 : length C = 2) by lia.
+          assert (Hch1' : chain st1 = C) by (rewrite Hch1; apply firstn_all2; lia).
+          rewrite (rounds_stable_two C now0 Hserv Hlim3 Hfit HC2 n' st1 st' Hrun' Hch1').
+          split; [exact Hch1'|]. rewrite <- Hch1'. exact Hden1.
+      + (* the node already holds the two-block chain C *)
+        destruct Hstart as [[R E]|[_ Hc]]; [|lia].
+        assert (HR : R = []).
+        { apply length_zero_iff_nil. rewrite E, app_length in Hge. lia. }
+        rewrite HR, app_nil_r in E.
+        assert (HC2 : length C = 2) by (rewrite E in *; lia).
+        rewrite (rounds_stable_two C now0 Hserv Hlim3 Hfit HC2 n st st' Hrun (eq_sym E)).
+        split; [symmetry; exact E|]. rewrite E. exact Hden.
+  Qed.
+
+  (* the number of rounds of the incremental phase, as the ceiling the property states *)
+  Corollary rounds_converge_ceil (C : list block) (now0 : Z) (st st' : cstate) :
+    servable now0 C -> (3 <= s_limit Se)%N -> (N.of_nat (length C) + s_limit Se <= two64)%N ->
+    prefix (chain st) C -> 2 < length (chain st) ->
+    denotes (chain st) (ur st) (ar st) ->
+    sync_rounds C now0 st (ceil_div (length C - length (chain st)) (lim - 1)) st' ->
+    chain st' = C /\ denotes C (ur st') (ar st') /\
+    ceil_div (length C - length (chain st)) (lim - 1) <= 1 + ceil_div (length C) (lim - 1).
+  Proof.
+    intros Hserv Hlim3 Hfit Hpre Hlen Hden Hrun.
+    assert (Hk : 0 < lim - 1) by (unfold lim; lia).
+    destruct (rounds_converge C now0 Hserv Hlim3 Hfit _ st st' Hrun Hpre Hlen Hden
+                              (ceil_div_ok _ _ Hk)) as [Hc Hd].
+    split; [exact Hc|]. split; [exact Hd|].
+    pose proof (ceil_div_mono (length C - length (chain st)) (length C) (lim - 1) Hk ltac:(lia)). lia.
+  Qed.
+
 End Converge.
+
+(* ------------------------------------------------------------------ *)
+(* the same, between reachable nodes (C07 gives the registers)         *)
+(* ------------------------------------------------------------------ *)
+
+Lemma denotes_same (C : list block) (u1 u2 : ureg) (a1 a2 : areg) :
+  denotes C u1 a1 -> denotes C u2 a2 -> u1 = u2 /\ registered a1 = registered a2.
+Proof.
+  intros (x1 & Hr1 & E1) (x2 & Hr2 & E2). rewrite Hr1 in Hr2. inversion Hr2; subst u2 x2.
+  split; [reflexivity|]. rewrite <- E1, <- E2. reflexivity.
+Qed.
+
+Section ConvergeReach.
+  Variable value_fn : N -> bool -> Z -> N.
+  Variable addr_of : string -> string.
+  Variable sig_ok : input -> bool.
+  Variable H : block -> hash.
+  Variable gen_id : slice input -> slice output -> Z -> string.
+  Variable Se : settings.
+  Variable validator : string.
+
+  (* [n0] is the node catching up, [srv] any reachable node that holds C (its validator address
+     and its history are its own): after the rounds, [n0] holds C with the outputs and the
+     registered addresses of [srv] *)
+  Theorem sync_converges_reach (validator' : string) (C : list block) (now0 : Z) (srv n0 : node) :
+    reach value_fn addr_of sig_ok H gen_id Se validator' srv -> chain (n_c srv) = C ->
+    reach value_fn addr_of sig_ok H gen_id Se validator n0 ->
+    servable value_fn addr_of sig_ok H Se now0 C ->
+    (3 <= s_limit Se)%N -> (N.of_nat (length C) + s_limit Se <= two64)%N ->
+    2 <= length C ->
+    1 <= length (chain (n_c n0)) ->
+    (prefix (chain (n_c n0)) C \/
+     (length (chain (n_c n0)) <= 2 /\ length (chain (n_c n0)) < length C)) ->
+    forall (n : nat) (st' : cstate),
+      sync_rounds value_fn addr_of sig_ok H Se C now0 (n_c n0) n st' ->
+      1 + ceil_div (length C) (lim Se - 1) <= n ->
+      chain st' = C /\
+      (forall addr, utxos_of (ur st') addr = utxos_of (ur (n_c srv)) addr) /\
+      (forall addr, is_registered (ar st') addr = is_registered (ar (n_c srv)) addr).
+  Proof.
+    intros Hsrv HC Hn0 Hserv Hlim3 Hfit HlenC Hlen1 Hstart n st' Hrun Hn.
+    pose proof (reach_denotes _ _ _ _ _ _ _ _ Hn0) as Hd0.
+    pose proof (reach_denotes _ _ _ _ _ _ _ _ Hsrv) as Hds. rewrite HC in Hds.
+    destruct (sync_converges value_fn addr_of sig_ok H Se C now0 Hserv Hlim3 Hfit HlenC
+                             n (n_c n0) st' Hrun Hlen1 Hstart Hd0 Hn) as [Hc Hd].
+    destruct (denotes_same C _ _ _ _ Hd Hds) as [Eu Ea].
+    split; [exact Hc|]. split.
+    - intros addr. rewrite Eu. reflexivity.
+    - intros addr. unfold is_registered. rewrite Ea. reflexivity.
+  Qed.
+End ConvergeReach.
+
+(* ------------------------------------------------------------------ *)
+(* a toy instance: a five-block chain served with a page size of 3     *)
+(* ------------------------------------------------------------------ *)
+Module ConvergeExample.
+  Import SyncExample.
+  Local Open Scope string_scope.
+  Definition S3 : settings := mkSettings 10 1 100 3.
+  (* the genesis block pays A 100; blocks 1, 2 and 4 hold a reward of 0 only; block 3 holds a
+     wallet-style transaction (it spends the genesis output, confirmed three blocks back:
+     100 in, 90 out, fee 10) and a reward of 10 *)
+  Definition g0 : block :=
+    mkBlock zero_hash None None 0 (Some [mkTx "g0" None (Some [mkOutput "A" false 100]) 0]).
+  Definition c1 : block := mkBlock (Ht g0) None None 10 (Some [rw "r1" "V" 10]).
+  Definition c2 : block := mkBlock (Ht c1) None None 20 (Some [rw "r2" "V" 20]).
+  Definition t3 : tx :=
+    mkTx "t3" (Some [mkInput 0 "g0" "A" "sigA"]) (Some [mkOutput "B" false 90]) 25.
+  Definition c3 : block :=
+    mkBlock (Ht c2) None None 30 (Some [t3; mkTx "r3" None (Some [mkOutput "V" false 10]) 30]).
+  Definition c4 : block := mkBlock (Ht c3) None None 40 (Some [rw "r4" "V" 40]).
+  Definition CC : list block := [g0; c1; c2; c3; c4].
+
+  (* an honest neighbor holding CC, as seen by a node holding [len] blocks *)
+  Definition page (h : N) : list block :=
+    match blocks_page S3 CC h with Ok p => p | Err _ => [] end.
+  Definition nbC (len : nat) : neighbor :=
+    mkNb "n1:1" (RBlocks (page (N.of_nat (len - 1)))) (RBlocks (page 0)).
+
+  (* a node that holds the genesis block only *)
+  Definition st1 : cstate := mkC [g0] ureg_empty areg_empty.
+  Definition st3 : cstate := fst (update vf ao so Ht S3 st1 40 [nbC 1] "").
+  Definition st5 : cstate := fst (update vf ao so Ht S3 st3 40 [nbC 3] "").
+
+  Lemma ex_servable : servable vf ao so Ht S3 40 CC.
+  Proof.
+    split; [cbn; repeat split; reflexivity|]. split; [reflexivity|].
+    split; [eexists; eexists; vm_compute; reflexivity|].
+    split.
+    { intros X p b T u a E Hr.
+      destruct X as [|x0 [|x1 [|x2 [|x3 [|x4 X]]]]]; inversion E; subst;
+        try (vm_compute in Hr; inversion Hr; subst u a; vm_compute; reflexivity).
+      destruct X; discriminate. }
+    split.
+    { unfold rewarded, CC.
+      apply Forall_cons; [eexists; split; [left; reflexivity | reflexivity]|].
+      apply Forall_cons; [eexists; split; [left; reflexivity | reflexivity]|].
+      apply Forall_cons; [eexists; split; [left; reflexivity | reflexivity]|].
+      apply Forall_cons; [eexists; split; [right; left; reflexivity | reflexivity]|].
+      apply Forall_cons; [eexists; split; [left; reflexivity | reflexivity]|].
+      apply Forall_nil. }
+    vm_compute. discriminate.
+  Qed.
+
+  Lemma ex_settings : (3 <= s_limit S3)%N /\ (N.of_nat (length CC) + s_limit S3 <= two64)%N.
+  Proof. split; vm_compute; discriminate. Qed.
+
+  Lemma ex_serves_1 : serves S3 CC st1 (nbC 1).
+  Proof.
+    split; (split; [discriminate|]); eexists; (split; [vm_compute; reflexivity|]); vm_compute; reflexivity.
+  Qed.
+
+  Lemma ex_chains :
+    chain st3 = [g0; c1; c2] /\ chain st5 = CC /\
+    replay (removelast CC) = Ok (ur st5, ar st5).
+  Proof. vm_compute. repeat split; reflexivity. Qed.
+
+  Lemma ex_serves_3 : serves S3 CC st3 (nbC 3).
+  Proof.
+    split; (split; [discriminate|]); eexists; (split; [vm_compute; reflexivity|]); vm_compute; reflexivity.
+  Qed.
+
+  Lemma ex_rounds : sync_rounds vf ao so Ht S3 CC 40 st1 2 st5.
+  Proof.
+    apply (sr_round vf ao so Ht S3 CC 40 st1 40 [nbC 1] ""); [apply Z.le_refl | discriminate | |].
+    { intros nb [E|[]]. subst nb. exact ex_serves_1. }
+    fold st3.
+    apply (sr_round vf ao so Ht S3 CC 40 st3 40 [nbC 3] ""); [apply Z.le_refl | discriminate | |].
+    { intros nb [E|[]]. subst nb. exact ex_serves_3. }
+    fold st5. apply sr_done.
+  Qed.
+End ConvergeExample.
